@@ -106,8 +106,8 @@ type World struct {
 	// Alias is a second spelling of Root (a symbolic link to it): paths below it belong to this world too
 	Alias string
 	// FDLimit > 0 models the process's descriptor limit (ulimit -n): an open beyond it fails with EMFILE
-	FDLimit int
-	OpensTotal, MmapsTotal  int
+	FDLimit                int
+	OpensTotal, MmapsTotal int
 
 	// logs and process stop
 	Logs       []string
@@ -420,6 +420,20 @@ func (w *World) ProcessStopped(msg string) {
 		w.nStopped++
 	}
 	w.unlock()
+}
+
+// stoppedWith tells whether a stop with this message is recorded already (log.Fatal records it before unwinding).
+//
+//go:norace
+func (w *World) stoppedWith(msg string) bool {
+	w.lock()
+	defer w.unlock()
+	for i := 0; i < w.nStopped; i++ {
+		if w.stoppedArr[i] == msg {
+			return true
+		}
+	}
+	return false
 }
 
 //go:norace
